@@ -165,3 +165,55 @@ func VfC14_Role() {
 		}
 	}
 }
+
+// VfC14_FoldedName: command names are matched without regard to ASCII letter case only. Unicode
+// has characters whose lower-case form is an ASCII letter (U+212A KELVIN SIGN -> k) and
+// characters that "fold" to one (U+017F LONG S); a supported name with such a character in place
+// of its k or s is a name no Redis server accepts, so it is not in the supported set: it must be
+// answered with an error and nothing may be sent to a backend. (The name is concrete on each path:
+// the case-folding functions are computed by the real standard-library code.)
+func VfC14_FoldedName() {
+	p, clients := vfNewProc(nil, "10.0.0.1:7000")
+	var names []string
+	for n := range vfRefForwarded {
+		names = append(names, n)
+	}
+	for n := range vfRefLocal {
+		names = append(names, n)
+	}
+	// deterministic order
+	for i := 1; i < len(names); i++ {
+		for j := i; j > 0 && names[j] < names[j-1]; j-- {
+			names[j], names[j-1] = names[j-1], names[j]
+		}
+	}
+	name := names[nd.Concrete(nd.Choice("cmd", len(names)))]
+	pos := nd.Concrete(nd.IntRange("pos", 0, 16))
+	nd.Assume(pos < len(name) && (name[pos] == 'k' || name[pos] == 's'))
+	repl := "K"
+	if name[pos] == 's' {
+		repl = "ſ"
+	}
+	if nd.Bool("upper") {
+		name = string(vfUpperASCII([]byte(name)))
+	}
+	mangled := name[:pos] + repl + name[pos+1:]
+	raw := newRawRequest(newStringArray(mangled, "k", "v", "w"))
+	nd.PanicLabel("handleRequest")
+	p.handleRequest(raw)
+	nd.Cover("folded-name")
+	nd.Assert(vfForwarded(clients) == 0, "a name that only Unicode case folding maps to a supported command is not sent to any backend")
+	nd.Assert(vfDone(raw.done) && raw.Response().Type == Error, "it is answered with an error")
+}
+
+func vfUpperASCII(b []byte) []byte {
+	out := make([]byte, len(b))
+	for i := range b {
+		c := b[i]
+		if c >= 'a' && c <= 'z' {
+			c -= 32
+		}
+		out[i] = c
+	}
+	return out
+}
